@@ -282,12 +282,16 @@ static std::unique_ptr<ISlot> makeSlot(const std::string& kind, const vj::Value&
 
 // ---------------------------------------------------------------- building handlers from a configuration
 static std::string keySpec(const vj::Value& a, int style = 0) {
-   // style 0: as defined ("s,long"), 1: short only (if present), 2: long only (if present)
+   // style 0: as defined ("s,long"), 1: short only (if present), 2: long only (if present), 3: complete with dashes
    if (a["pos"].boolean()) return "-";
    std::string s, l = a["l"].bytes();
    if (a["s"].num() != 0) s = std::string(1, static_cast<char>(a["s"].num()));
    if (style == 1 && !s.empty()) return s;
    if (style == 2 && !l.empty()) return l;
+   if (style == 3) {   // the complete specification written with its dashes ("-s,--long"), the form the handler itself prints
+      if (!s.empty() && !l.empty()) return "-" + s + ",--" + l;
+      return s.empty() ? "--" + l : "-" + s;
+   }
    if (!s.empty() && !l.empty()) return s + "," + l;
    return s.empty() ? l : s;
 }
@@ -346,6 +350,21 @@ static int handlerFlags(const vj::Value& cfg) {
    if (cfg["arghidden"].boolean()) f |= Handler::hfArgHidden;
    if (cfg["argdepr"].boolean()) f |= Handler::hfArgDeprecated;
    return f;
+}
+
+// flags the application gives to the Groups object itself (cfg.grpflags): they are passed on to every member handler
+static int groupFlags(const vj::Value& cfg) {
+   int f = 0;
+   const vj::Value& gf = cfg["grpflags"];
+   for (size_t k = 0; k < gf.size(); ++k) {
+      const std::string n = gf[k].str();
+      if (n == "listgroups") f |= Handler::hfListArgGroups;
+      else if (n == "verbose") f |= Handler::hfVerboseArgs;
+      else if (n == "listargvar") f |= Handler::hfListArgVar;
+      else if (n == "arghidden") f |= Handler::hfArgHidden;
+      else if (n == "usagehidden") f |= Handler::hfUsageHidden;
+   }
+   return f | Handler::hfUsageCont;
 }
 
 static void applyArgSettings(const vj::Value& cfg, const vj::Value& a, TypedArgBase* t) {
@@ -433,7 +452,7 @@ static std::unique_ptr<Built> buildImpl(const vj::Value& cfg, bool grouped, int 
    int nmembers = 1;
    if (grouped) {
       for (size_t i = 0; i < args.size(); ++i) nmembers = std::max(nmembers, static_cast<int>(args[i]["grp"].num()) + 1);
-      for (int m = 0; m < nmembers; ++m) b->members.push_back(Groups::instance(b->out, b->err).getArgHandler("g" + std::to_string(m), flags));
+      for (int m = 0; m < nmembers; ++m) b->members.push_back((cfg["grpflags"].size() > 0 ? Groups::instance(b->out, b->err, groupFlags(cfg)) : Groups::instance(b->out, b->err)).getArgHandler("g" + std::to_string(m), flags));
    } else if (mainAh != nullptr) {
       // "constructor to be used by a sub-group": output streams and usage settings are taken from the main handler
       b->single = std::make_unique<Handler>(*mainAh, flags);
@@ -646,7 +665,7 @@ static void doDefine(const vj::Value& cfg, const vj::Value& act) {
       int nmembers = 1;
       if (grouped) {
          for (size_t i = 0; i < args.size(); ++i) nmembers = std::max(nmembers, static_cast<int>(args[i]["grp"].num()) + 1);
-         for (int m = 0; m < nmembers; ++m) b->members.push_back(Groups::instance(b->out, b->err).getArgHandler("g" + std::to_string(m), handlerFlags(cfg)));
+         for (int m = 0; m < nmembers; ++m) b->members.push_back((cfg["grpflags"].size() > 0 ? Groups::instance(b->out, b->err, groupFlags(cfg)) : Groups::instance(b->out, b->err)).getArgHandler("g" + std::to_string(m), handlerFlags(cfg)));
       } else b->single = std::make_unique<Handler>(b->out, b->err, handlerFlags(cfg));
       for (size_t i = 0; i < args.size(); ++i) {
          const vj::Value& a = args[i];
@@ -983,7 +1002,7 @@ int main(int argc, char** argv) {
          if (line.empty()) continue;
          vj::Value act = vj::parse(line);
          if (act["n"].str() == "Reset") { blocksv.push_back(Block{act["cfg"], {}}); continue; }
-         if (!blocksv.empty() && act["n"].str() == "Eval") blocksv.back().acts.push_back(act);
+         if (!blocksv.empty() && (act["n"].str() == "Eval" || act["n"].str() == "Usage")) blocksv.back().acts.push_back(act);
       }
       fclose(f);
       const long rounds = vh::argnum(argc, argv, "--rounds", 1);
@@ -1010,7 +1029,7 @@ int main(int argc, char** argv) {
                   for (auto& a : b.acts) {
                      // every second set-up uses pattern strings that are new to the process, the others known ones
                      gPatSalt = (++evalNo % 2 == 0) ? std::string() : "|\x02" + std::to_string(base + t) + "_" + std::to_string(evalNo);
-                     doEval(b.cfg, a, cj);
+                     if (a["n"].str() == "Usage") doUsage(b.cfg, a); else doEval(b.cfg, a, cj);
                   }
                gPatSalt.clear();
                vj::Line::sink() = nullptr;
